@@ -382,6 +382,14 @@ func Main(args []string) int {
 	}
 	for k, m := range sets {
 		merged.Counters["distinct_"+k] = int64(len(m))
+		if len(m) <= 40 { // small sets are listed in evidence (observed outcome classes, recovered panics, ...)
+			l := make([]string, 0, len(m))
+			for v := range m {
+				l = append(l, v)
+			}
+			sort.Strings(l)
+			merged.Sets[k] = l
+		}
 	}
 	sort.Slice(merged.Violations, func(i, j int) bool { return merged.Violations[i].Sig < merged.Violations[j].Sig })
 
@@ -449,6 +457,9 @@ func writeEvidence(prop, tier string, seed int64, ci *CheckInfo, r Result, nviol
 	cov["samples"] = samples
 	cov["exhaustive"] = !r.Capped && len(r.HarnessErr) == 0
 	cov["rule"] = ci.Rule
+	if len(r.Sets) > 0 {
+		cov["observed_sets"] = r.Sets
+	}
 	if len(r.Notes) > 0 {
 		if len(r.Notes) > 40 {
 			r.Notes = r.Notes[:40]
